@@ -1,6 +1,8 @@
 // drv_cmp.cpp -- C15 correspondence driver (comparisons and sorting).
 // case lines (see ocaml/cmp.ml for the same table):
-//   S w a b             -> xxxxxx/xxxxxx/xxxx   String, StringView: < <= > >= == != ; (const Char_T *) overloads: < <= > >=  ("-" if b holds a NUL)
+//   S w a b             -> xxxxxx/xxxxxx/xxxxxx/xxxxxx   < <= > >= == !=  of String OP String, StringView OP StringView,
+//                          String OP (const Char_T *), StringView OP (const Char_T *); the C string is b + NUL, i.e. b cut at its first NUL
+//   I w a b             -> xxxxx/xxxxx          HAItem_T, HLItem_T with keys a, b:  < > <= >= ==
 //   T w a b c           -> xxxxxx/xxxxxx/xxxxxx String results for (a,b), (b,c), (a,c)
 //   V w va vb           -> xxxxx                Value  < > <= >= ==
 //   N dir list          -> list                 Array<SizeT64>::Sort
@@ -15,6 +17,7 @@
 #include <deque>
 #include "JSON.hpp"
 #include "Template.hpp"
+#include "HList.hpp"
 
 using namespace Qentem;
 using vf::u64;
@@ -51,6 +54,30 @@ static std::string six(const T &a, const T &b) {
     return r;
 }
 
+template <typename T, typename C>
+static std::string six_c(const T &a, const C *b) {
+    std::string r;
+    r += bit(a < b);
+    r += bit(a <= b);
+    r += bit(a > b);
+    r += bit(a >= b);
+    r += bit(a == b);
+    r += bit(a != b);
+    return r;
+}
+
+// HAItem_T / HLItem_T: the operators that exist, in the order of the struct:  <  >  <=  >=  ==
+template <typename T>
+static std::string five_item(const T &a, const T &b) {
+    std::string r;
+    r += bit(a < b);
+    r += bit(a > b);
+    r += bit(a <= b);
+    r += bit(a >= b);
+    r += bit(a == b);
+    return r;
+}
+
 template <typename C>
 static String<C> mk_string(const std::vector<u64> &u) {
     vf::ExactBuf<C> buf(u);
@@ -78,19 +105,23 @@ static std::string run_S(const std::vector<u64> &a, const std::vector<u64> &b) {
         }
     }
     std::string     r = ((a == b) ? six(sa, sa) : six(sa, sb)) + "/" + six(va, vb) + "/";
-    bool            has_nul = false;
-    for (auto x : b) has_nul = has_nul || (x == 0);
-    if (has_nul) return r + "-";
+    // (const Char_T *) overloads: the right operand is b followed by a terminator, so what the callee
+    // sees is b cut at its first NUL (StringUtils::Count); all six operators of both classes.
     std::vector<C> z;
     for (auto x : b) z.push_back((C)x);
     z.push_back(C(0));
     const C *cs = z.data();
-    // String overloads for < and >, StringView overloads for <= and >= (same helper underneath)
-    r += bit(sa < cs);
-    r += bit(va <= cs);
-    r += bit(sa > cs);
-    r += bit(va >= cs);
+    r += six_c(sa, cs) + "/" + six_c(va, cs);
     return r;
+}
+// ---- I: items of HArray / HList compare by key; Hash, Next and Value differ on purpose ----
+template <typename C>
+static std::string run_I(const std::vector<u64> &a, const std::vector<u64> &b) {
+    HAItem_T<String<C>, SizeT64> ha{mk_string<C>(a), SizeT{7}, SizeT{1}, SizeT64{100}};
+    HAItem_T<String<C>, SizeT64> hb{mk_string<C>(b), SizeT{3}, SizeT{9}, SizeT64{5}};
+    HLItem_T<String<C>>          la{mk_string<C>(a), SizeT{2}, SizeT{8}};
+    HLItem_T<String<C>>          lb{mk_string<C>(b), SizeT{6}, SizeT{0}};
+    return five_item(ha, hb) + "/" + five_item(la, lb);
 }
 template <typename C>
 static std::string run_T(const std::vector<u64> &a, const std::vector<u64> &b, const std::vector<u64> &c) {
@@ -336,6 +367,7 @@ static std::string run_w(const std::vector<std::string> &tk) {
     if (k == "S" && tk.size() >= 4) return run_S<C>(vf::parse_list(tk[2]), vf::parse_list(tk[3]));
     if (k == "T" && tk.size() >= 5) return run_T<C>(vf::parse_list(tk[2]), vf::parse_list(tk[3]), vf::parse_list(tk[4]));
     if (k == "V" && tk.size() >= 4) return run_V<C>(tk[2], tk[3]);
+    if (k == "I" && tk.size() >= 4) return run_I<C>(vf::parse_list(tk[2]), vf::parse_list(tk[3]));
     return "BADCASE";
 }
 template <typename C>
@@ -355,7 +387,7 @@ int main() {
         const std::string &k = tk[0];
         if (k == "N") return run_N(tk[1] == "1", vf::parse_list(tk[2]));
         if (k == "L") return run_L(tk[1] == "1", vf::parse_list(tk[2]));
-        if (k == "S" || k == "T" || k == "V") {
+        if (k == "S" || k == "T" || k == "V" || k == "I") {
             switch (std::atoi(tk[1].c_str())) {
                 case 0: return run_w<char>(tk);
                 case 1: return run_w<char16_t>(tk);
